@@ -4,7 +4,7 @@
    statements cover data AND masks).  An axis is given by outer = product of the axis lengths
    before it and inner = product of those after it: "any dimension of any variable". *)
 From PNC Require Import Base.Util Base.ArrFlat Model.Slice Model.Stack
-                        Proofs.ArrFlatProofs Proofs.SliceProofs Proofs.StackProofs.
+                        Proofs.ArrFlatProofs Proofs.SliceProofs Proofs.StackProofs Proofs.StackFileProofs.
 
 (* part p = (length along the axis, cells); well-sized for the axis position *)
 Definition part_ok {A} (outer inner : nat) (p : nat * list A) : Prop :=
@@ -87,6 +87,21 @@ Theorem C04_concat_unique : forall (A : Type) outer inner (parts : list (nat * l
 Proof. intros A. exact concat_unique. Qed.
 Print Assumptions C04_concat_unique.
 
+(* WHOLE FILE: for every well-formed file (any number of dimensions and variables, any dimension
+   subsets/orders per variable without repeated dimensions, any cells = data and masks), every
+   dimension k and every partition of it into >= 1 consecutive pieces (empty ones allowed), the
+   model of PseudoNetCDFFile.stack applied to the model of the split pieces returns every variable
+   unchanged — those without the dimension from the first piece — and the original dimension
+   lengths, the stack dimension listed last with length = the sum *)
+Theorem C04_stack_split_file : forall (A : Type) (f : file A) k lens,
+  wf_file f = true -> Forall (fun v => NoDup (v_dims v)) (f_vars f) ->
+  k < length (f_dims f) -> lens <> [] -> sumn lens = nth k (f_dims f) 0 ->
+  impl_stack (split_file f k lens) k
+  = Some (filter (fun p => negb (Nat.eqb (fst p) k)) (combine (seq 0 (length (f_dims f))) (f_dims f))
+          ++ [(k, nth k (f_dims f) 0)], f_vars f).
+Proof. intros A. exact stack_split_file. Qed.
+Print Assumptions C04_stack_split_file.
+
 (* ---- non-vacuity ---------------------------------------------------------------------------- *)
 
 (* a (2,5,2) array split on its middle axis into pieces of 2, 0 and 3 and stacked again; the
@@ -111,3 +126,12 @@ Example C04_file_example :
               File [2; 2] [Var [0; 1] [20; 21; 22; 23]; Var [0] [7; 8]]] 1
   = Some ([(0, 2); (1, 3)], [Var [0; 1] [10; 20; 21; 11; 22; 23]; Var [0] [1; 2]]).
 Proof. vm_compute. reflexivity. Qed.
+
+(* a file with a (2,5) variable, a variable without the split dimension and the coordinate
+   variable of it, split on dimension 1 into 2 + 0 + 3 and stacked *)
+Example C04_stack_split_file_inhabited :
+  let f := File [2; 5] [Var [0; 1] (seq 0 10); Var [0] [7; 8]; Var [1] [20; 21; 22; 23; 24]] in
+  wf_file f = true /\
+  map (fun g => f_dims g) (split_file f 1 [2; 0; 3]) = [[2; 2]; [2; 0]; [2; 3]] /\
+  impl_stack (split_file f 1 [2; 0; 3]) 1 = Some ([(0, 2); (1, 5)], f_vars f).
+Proof. vm_compute. repeat split; reflexivity. Qed.
